@@ -80,7 +80,7 @@ class Template(object):
         k = loc_kind(loc)
         if k[0] == 'np':
             return pyref.pathkey(self.root, k[1])
-        if k[0] == 'expr_end':
+        if k[0] in ('expr_end', 'node_end'):
             return pyref.pathkey(self.root, k[1]) + pyref.AFTER_ALL
         if k[0] == 'first_body':
             return pyref.pathkey(self.root, k[1] + '[0]')
